@@ -59,6 +59,8 @@
 
 #define MAX_NLINES	(16384)
 #define MAX_LLEN	(1024)
+/* size of the window we read into */
+#define MAP_LEN		(MAX_NLINES * MAX_LLEN)
 
 #if !defined MAP_ANONYMOUS && defined MAP_ANON
 # define MAP_ANONYMOUS	(MAP_ANON)
@@ -174,8 +176,19 @@ prchunk_fill(prch_ctx_t ctx)
 	}
 
 yield1:
+	if (UNLIKELY((size_t)(bno - ctx->buf) + CHUNK_SIZE > MAP_LEN)) {
+		/* the window cannot take another chunk */
+		if (UNLIKELY(!ctx->tot_lno)) {
+			/* a single line that is longer than the window */
+			return -1;
+		}
+		/* hand out the lines we've got, the rest is carried over */
+		YIELD(3);
+	}
 	/* read CHUNK_SIZE bytes */
-	bno += (nrd = read(ctx->fd, bno, CHUNK_SIZE));
+	if ((nrd = read(ctx->fd, bno, CHUNK_SIZE)) > 0) {
+		bno += nrd;
+	}
 	/* if we came from yield2 then off == __ctx->bno, and if we
 	 * read 0 or less bytes then off >= __ctx->bno + nrd, so we
 	 * can simply use that compact expression if the buffer has no
@@ -219,7 +232,7 @@ yield2:
 		}
 		/* massage our status structures */
 		set_loff(ctx, ctx->tot_lno, p - ctx->buf);
-		if (UNLIKELY(p[-1] == '\r')) {
+		if (UNLIKELY(p > off && p[-1] == '\r')) {
 			/* oh god, when is this nightmare gonna end */
 			p[-1] = '\0';
 			set_lftermd(ctx, ctx->tot_lno);
@@ -251,7 +264,6 @@ init_prchunk(int fd)
 {
 #define MAP_MEM		(MAP_ANON | MAP_PRIVATE)
 #define PROT_MEM	(PROT_READ | PROT_WRITE)
-#define MAP_LEN		(MAX_NLINES * MAX_LLEN)
 	static struct prch_ctx_s __ctx;
 
 	__ctx.buf = mmap(NULL, MAP_LEN, PROT_MEM, MAP_MEM, -1, 0);
